@@ -306,6 +306,17 @@ def r_gram_exh(ck: Checker) -> None:
     what = "the pattern grammar ignores whitespace between tokens"
     (ck.holds if "WS" in g.ignore else ck.violation)("R-WS", (ck.repo.mod(GRAM).rel, "PATTERN_DEF_GRAMMAR"), None, what,
                                                      **({} if "WS" in g.ignore else {"construct": "PATTERN_DEF_GRAMMAR does not %ignore WS"}))
+    # whitespace is ignored *between tokens*: a terminal glued together from a token that also stands on its own in a rule hides a
+    # token boundary (e.g. VAR: "$" CAPTURE_KEY makes `$ name` a syntax error although `-> name` may be spaced)
+    for gname, gram in (("PATTERN_DEF_GRAMMAR", g), ("xpath_grammar", load(lift(ck.repo, XP, "xpath_grammar")))):
+        used_in_rules = {s_.name for r_ in gram.rules.values() for s_ in r_.symbols if s_.kind == "term"}
+        glued = sorted((t_, sorted(refs & used_in_rules)) for t_, refs in getattr(gram, "term_refs", {}).items() if refs & used_in_rules and t_ not in refs)
+        what_ws = f"{gname}: whitespace may separate any two tokens (no terminal swallows a token that also occurs on its own)"
+        if glued:
+            ck.violation("R-WS", (ck.repo.mod(GRAM if gname == "PATTERN_DEF_GRAMMAR" else XP).rel, gname), None, what_ws,
+                         construct=f"{gname}: terminal {glued[0][0]} is built from the token {glued[0][1][0]} (no whitespace allowed inside it)")
+        else:
+            ck.holds("R-WS", (ck.repo.mod(GRAM if gname == "PATTERN_DEF_GRAMMAR" else XP).rel, gname), None, what_ws)
     gx = load(lift(ck.repo, XP, "xpath_grammar"))
     what = "the xpath grammar ignores whitespace between tokens"
     (ck.holds if "WS" in gx.ignore else ck.violation)("R-WS", (ck.repo.mod(XP).rel, "xpath_grammar"), None, what,
